@@ -25,11 +25,12 @@ Fixpoint fwd_kids (tau : Z) (n i : nat) (l : list tree) : list event :=
   | [] => []
   | c :: l' => PushToChild n i (tid c) ++ [EnvParent n i (tid c)] ++ fwd tau (Some n) c ++ fwd_kids tau n (S i) l'
   end.
+Definition bwd_blk (tau : Z) (n i : nat) (c : tree) : list event :=
+  [QRDown n i (tid c); EnvParent n i (tid c); Evolve0 (tid c) (- tau); AbsorbDown n i (tid c)] ++ bwd tau (Some n) c.
 Fixpoint bwd_kids (tau : Z) (n i : nat) (l : list tree) : list event :=
   match l with
   | [] => []
-  | c :: l' => [QRDown n i (tid c); EnvParent n i (tid c); Evolve0 (tid c) (- tau); AbsorbDown n i (tid c)]
-               ++ bwd tau (Some n) c ++ bwd_kids tau n (S i) l'
+  | c :: l' => bwd_kids tau n (S i) l' ++ bwd_blk tau n i c
   end.
 
 Lemma fwd_eq : forall tau par n ch,
@@ -42,9 +43,15 @@ Lemma bwd_eq : forall tau par n ch,
   bwd tau par (Node n ch) = [Evolve1 n tau] ++ bwd_kids tau n 0 ch ++ up_bwd n par.
 Proof.
   intros. cbn [bwd]. f_equal. f_equal. generalize 0%nat. induction ch as [|c l IH]; intros i; [reflexivity|].
-  cbn [bwd_kids]. rewrite <- IH. reflexivity.
+  cbn [bwd_kids]. rewrite <- IH. unfold bwd_blk. reflexivity.
 Qed.
-
+Lemma bwd_kids_snoc : forall tau n l c i,
+  bwd_kids tau n i (l ++ [c]) = bwd_blk tau n (i + length l) c ++ bwd_kids tau n i l.
+Proof.
+  intros tau n l c. induction l as [|d l IH]; intros i.
+  - cbn [app bwd_kids length]. rewrite Nat.add_0_r, app_nil_r. reflexivity.
+  - cbn [app bwd_kids length]. rewrite IH. rewrite app_assoc. f_equal. f_equal. f_equal. lia.
+Qed.
 Lemma fwd_par : forall tau p t, fwd tau (Some p) t = fwd tau None t ++ up_fwd tau (tid t) (Some p).
 Proof. intros tau p [n ch]. rewrite !fwd_eq. cbn [up_fwd tid]. rewrite !app_assoc, app_nil_r. reflexivity. Qed.
 Lemma bwd_par : forall tau p t, bwd tau (Some p) t = bwd tau None t ++ up_bwd (tid t) (Some p).
@@ -170,21 +177,32 @@ Proof.
   rewrite L, Z.eqb_refl. destruct par; reflexivity.
 Qed.
 
-Lemma bwd_step_desc : forall tau par n done c todo rest o e,
-  bwd_step tau (mkS (mkF par (Node n (done ++ c :: todo)) (Z.of_nat (length done) - 1) :: rest) o e)
-  = mkS (mkF (Some n) c (-1) :: mkF par (Node n (done ++ c :: todo)) (Z.of_nat (length done)) :: rest)
-        (o ++ (if is_nil done then [Evolve1 n tau] else [])
-           ++ [QRDown n (length done) (tid c); EnvParent n (length done) (tid c);
-               Evolve0 (tid c) (- tau); AbsorbDown n (length done) (tid c)]) e.
+Lemma child_at_rev : forall pre c post,
+  child_at (pre ++ c :: post) (Z.of_nat (length (pre ++ c :: post)) - 1 - (Z.of_nat (length post) - 1 + 1)) = Some c.
+Proof.
+  intros. unfold child_at. rewrite app_length. cbn [length].
+  replace (Z.of_nat (length pre + S (length post)) - 1 - (Z.of_nat (length post) - 1 + 1)) with (Z.of_nat (length pre)) by lia.
+  destruct (Z.ltb_spec (Z.of_nat (length pre)) 0); [lia|].
+  rewrite Nat2Z.id. rewrite nth_error_app2 by lia. rewrite Nat.sub_diag. reflexivity.
+Qed.
+
+Lemma bwd_step_desc : forall tau par n pre c post rest o e,
+  bwd_step tau (mkS (mkF par (Node n (pre ++ c :: post)) (Z.of_nat (length post) - 1) :: rest) o e)
+  = mkS (mkF (Some n) c (-1) :: mkF par (Node n (pre ++ c :: post)) (Z.of_nat (length post)) :: rest)
+        (o ++ (if is_nil post then [Evolve1 n tau] else [])
+           ++ [QRDown n (length pre) (tid c); EnvParent n (length pre) (tid c);
+               Evolve0 (tid c) (- tau); AbsorbDown n (length pre) (tid c)]) e.
 Proof.
   intros. unfold bwd_step. cbn [stk f_node f_i f_par tid tch out err].
-  assert (L : (Z.of_nat (length done) - 1 =? Z.of_nat (length (done ++ c :: todo)) - 1) = false).
+  assert (L : (Z.of_nat (length post) - 1 =? Z.of_nat (length (pre ++ c :: post)) - 1) = false).
   { apply Z.eqb_neq. rewrite app_length. cbn [length]. lia. }
-  rewrite L. rewrite child_at_app.
-  replace (Z.of_nat (length done) - 1 + 1) with (Z.of_nat (length done)) by lia.
+  rewrite L. rewrite child_at_rev.
+  replace (Z.of_nat (length post) - 1 + 1) with (Z.of_nat (length post)) by lia.
+  replace (Z.of_nat (length (pre ++ c :: post)) - 1 - Z.of_nat (length post)) with (Z.of_nat (length pre))
+    by (rewrite app_length; cbn [length]; lia).
   rewrite Nat2Z.id.
-  assert (E : (Z.of_nat (length done) - 1 =? -1) = is_nil done).
-  { destruct done; cbn [length is_nil]; [reflexivity|]. apply Z.eqb_neq. lia. }
+  assert (E : (Z.of_nat (length post) - 1 =? -1) = is_nil post).
+  { destruct post; cbn [length is_nil]; [reflexivity|]. apply Z.eqb_neq. lia. }
   rewrite E. reflexivity.
 Qed.
 
@@ -193,48 +211,54 @@ Definition bwd_node_ok (tau : Z) (t : tree) : Prop :=
     run (bwd_step tau) (iters t + k) (mkS (mkF par t (-1) :: rest) o e)
     = run (bwd_step tau) k (mkS rest (o ++ bwd tau par t) e).
 
-Lemma bwd_loop : forall tau n par todo,
-  Forall (bwd_node_ok tau) todo ->
-  forall done rest o e k, done <> [] ->
-    run (bwd_step tau) (S (iters_kids todo) + k)
-        (mkS (mkF par (Node n (done ++ todo)) (Z.of_nat (length done) - 1) :: rest) o e)
+Lemma iters_kids_app : forall a b, iters_kids (a ++ b) = (iters_kids a + iters_kids b)%nat.
+Proof. intros. unfold iters_kids. rewrite map_app, list_sum_app. reflexivity. Qed.
+
+(* the children still to be visited are a prefix [pre]; they are visited last-to-first *)
+Lemma bwd_loop : forall tau n par pre,
+  Forall (bwd_node_ok tau) pre ->
+  forall post rest o e k, post <> [] ->
+    run (bwd_step tau) (S (iters_kids pre) + k)
+        (mkS (mkF par (Node n (pre ++ post)) (Z.of_nat (length post) - 1) :: rest) o e)
     = run (bwd_step tau) k
-        (mkS rest (o ++ bwd_kids tau n (length done) todo ++ up_bwd n par) e).
+        (mkS rest (o ++ bwd_kids tau n 0 pre ++ up_bwd n par) e).
 Proof.
-  intros tau n par todo HF. induction HF as [|c todo Hc HF IH]; intros done rest o e k ND.
-  - rewrite iters_kids_nil. cbn [plus]. rewrite run_step by (cbn; discriminate).
-    rewrite app_nil_r. rewrite bwd_step_last by assumption. reflexivity.
-  - rewrite iters_kids_cons.
-    replace (S (S (iters c) + iters_kids todo) + k)%nat with (S (iters c + (S (iters_kids todo) + k)))%nat by lia.
+  intros tau n par pre. induction pre as [|c pre IH] using rev_ind; intros HF post rest o e k NP.
+  - rewrite iters_kids_nil. cbn [plus app]. rewrite run_step by (cbn; discriminate).
+    cbn [bwd_kids app]. apply f_equal.
+    unfold bwd_step. cbn [stk f_node f_i f_par tid tch out err].
+    assert (L : (Z.of_nat (length post) - 1 =? -1) = false).
+    { apply Z.eqb_neq. destruct post; [contradiction|]. cbn [length]. lia. }
+    rewrite L, Z.eqb_refl. destruct par; reflexivity.
+  - apply Forall_app in HF. destruct HF as [HF Hc]. inversion Hc as [|? ? Hc' _]; subst.
+    rewrite iters_kids_app, iters_kids_cons, iters_kids_nil.
+    replace (S (iters_kids pre + (S (iters c) + 0)) + k)%nat with (S (iters c + (S (iters_kids pre) + k)))%nat by lia.
     rewrite run_step by (cbn; discriminate).
-    rewrite bwd_step_desc. rewrite Hc.
-    assert (ND' : done ++ [c] <> []) by (destruct done; discriminate).
-    specialize (IH (done ++ [c]) rest).
-    rewrite <- app_assoc in IH. cbn [app] in IH.
-    rewrite app_length in IH. cbn [length] in IH.
-    replace (Z.of_nat (length done + 1) - 1) with (Z.of_nat (length done)) in IH by lia.
-    rewrite IH by assumption. f_equal. f_equal.
-    destruct done as [|d0 done']; [contradiction|]. cbn [is_nil app].
-    cbn [bwd_kids]. replace (length (d0 :: done') + 1)%nat with (S (length (d0 :: done'))) by lia.
-    rewrite <- !app_assoc. reflexivity.
+    rewrite <- app_assoc. cbn [app]. rewrite bwd_step_desc. rewrite Hc'.
+    destruct post as [|p0 post']; [contradiction|]. cbn [is_nil app].
+    specialize (IH HF (c :: p0 :: post') rest).
+    cbn [length] in IH. replace (Z.of_nat (S (S (length post'))) - 1) with (Z.of_nat (length (p0 :: post'))) in IH
+      by (cbn [length]; lia).
+    rewrite IH by discriminate. f_equal. f_equal.
+    rewrite bwd_kids_snoc. cbn [plus]. unfold bwd_blk. rewrite <- !app_assoc. reflexivity.
 Qed.
 
 Lemma bwd_machine_node : forall tau t, bwd_node_ok tau t.
 Proof.
   intros tau. apply tree_ind'. intros n ch HF par rest o e k.
-  rewrite iters_node. rewrite bwd_eq. destruct ch as [|c ch].
+  rewrite iters_node. rewrite bwd_eq. destruct ch as [|c0 ch0] eqn:Ech using rev_ind.
   - rewrite iters_kids_nil. cbn [plus]. rewrite run_step by (cbn; discriminate).
     rewrite bwd_step_first_last. reflexivity.
-  - inversion HF as [|c' ch' Hc HF']; subst.
-    rewrite iters_kids_cons.
-    replace (S (S (iters c) + iters_kids ch) + k)%nat with (S (iters c + (S (iters_kids ch) + k)))%nat by lia.
+  - clear IHch0. apply Forall_app in HF. destruct HF as [HF Hc]. inversion Hc as [|? ? Hc' _]; subst.
+    rewrite iters_kids_app, iters_kids_cons, iters_kids_nil.
+    replace (S (iters_kids ch0 + (S (iters c0) + 0)) + k)%nat with (S (iters c0 + (S (iters_kids ch0) + k)))%nat by lia.
     rewrite run_step by (cbn; discriminate).
-    pose proof (bwd_step_desc tau par n [] c ch rest o e) as D. cbn [app length is_nil] in D.
-    change (Z.of_nat 0 - 1) with (-1) in D. rewrite D. rewrite Hc.
-    pose proof (bwd_loop tau n par ch HF' [c] rest) as L. cbn [app length] in L.
+    pose proof (bwd_step_desc tau par n ch0 c0 [] rest o e) as D. cbn [length is_nil] in D.
+    change (Z.of_nat 0 - 1) with (-1) in D. rewrite D. rewrite Hc'.
+    pose proof (bwd_loop tau n par ch0 HF [c0] rest) as L. cbn [length] in L.
     change (Z.of_nat 1 - 1) with 0 in L. change (Z.of_nat 0) with 0.
-    rewrite L by discriminate. f_equal. f_equal. cbn [bwd_kids].
-    rewrite <- !app_assoc. reflexivity.
+    rewrite L by discriminate. f_equal. f_equal.
+    rewrite bwd_kids_snoc. cbn [plus]. unfold bwd_blk. rewrite <- !app_assoc. reflexivity.
 Qed.
 
 (* fuel: exactly iters t iterations are executed; any larger fuel gives the same answer *)
@@ -318,25 +342,33 @@ Proof.
   rewrite K. destruct par; cbn [ev0_of flat_map app]; rewrite ?tag_app, ?app_nil_r; reflexivity.
 Qed.
 
-(* backward sweep: one-site steps in pre-order, bond steps in pre-order of the child ends *)
-Lemma bwd_ev1 : forall tau t par, ev1_of (bwd tau par t) = tag tau (ids t).
+Lemma tid_rev_children : forall t, tid (rev_children t) = tid t.
+Proof. intros [n ch]. reflexivity. Qed.
+Lemma ids_edge_rc : forall c, ids (rev_children c) = tid c :: edge_ids (rev_children c).
+Proof. intros [n ch]. reflexivity. Qed.
+
+(* backward sweep: one-site steps in pre-order of the child-reversed tree (= reverse post-order), bond steps likewise *)
+Lemma bwd_ev1 : forall tau t par, ev1_of (bwd tau par t) = tag tau (ids (rev_children t)).
 Proof.
-  intros tau. apply (tree_ind' (fun t => forall par, ev1_of (bwd tau par t) = tag tau (ids t))).
-  intros n ch HF par. rewrite bwd_eq, !ev1_app, ev1_up_bwd, app_nil_r. cbn [ids].
-  change (tag tau (n :: flat_map ids ch)) with ((n, tau) :: tag tau (flat_map ids ch)).
+  intros tau. apply (tree_ind' (fun t => forall par, ev1_of (bwd tau par t) = tag tau (ids (rev_children t)))).
+  intros n ch HF par. rewrite bwd_eq, !ev1_app, ev1_up_bwd, app_nil_r. cbn [rev_children ids].
+  change (tag tau (n :: flat_map ids (rev (map rev_children ch))))
+    with ((n, tau) :: tag tau (flat_map ids (rev (map rev_children ch)))).
   cbn [ev1_of flat_map app]. f_equal.
   generalize 0%nat. induction HF as [|c l Hc HF IH]; intros i; [reflexivity|].
-  cbn [bwd_kids flat_map]. rewrite !ev1_app, tag_app, Hc, IH. reflexivity.
+  cbn [bwd_kids map rev]. unfold bwd_blk. rewrite !ev1_app, flat_map_app, tag_app, Hc, IH.
+  cbn [ev1_of flat_map app]. rewrite app_nil_r. reflexivity.
 Qed.
 
-Lemma bwd_ev0 : forall tau t par, ev0_of (bwd tau par t) = tag (- tau) (edge_ids t).
+Lemma bwd_ev0 : forall tau t par, ev0_of (bwd tau par t) = tag (- tau) (edge_ids (rev_children t)).
 Proof.
-  intros tau. apply (tree_ind' (fun t => forall par, ev0_of (bwd tau par t) = tag (- tau) (edge_ids t))).
-  intros n ch HF par. rewrite bwd_eq, !ev0_app, ev0_up_bwd, app_nil_r. unfold edge_ids. cbn [tch].
+  intros tau. apply (tree_ind' (fun t => forall par, ev0_of (bwd tau par t) = tag (- tau) (edge_ids (rev_children t)))).
+  intros n ch HF par. rewrite bwd_eq, !ev0_app, ev0_up_bwd, app_nil_r. unfold edge_ids. cbn [rev_children tch].
   cbn [ev0_of flat_map app].
   generalize 0%nat. induction HF as [|c l Hc HF IH]; intros i; [reflexivity|].
-  cbn [bwd_kids flat_map]. rewrite !ev0_app, tag_app, (Hc (Some n)), IH.
-  destruct c as [m chc]. unfold edge_ids. cbn [ids tch tid]. reflexivity.
+  cbn [bwd_kids map rev]. unfold bwd_blk. rewrite !ev0_app, flat_map_app, tag_app, (Hc (Some n)), IH.
+  cbn [ev0_of flat_map app]. rewrite app_nil_r. f_equal.
+  rewrite (ids_edge_rc c). reflexivity.
 Qed.
 
 (* post-order and pre-order enumerate the same nodes *)
@@ -359,6 +391,28 @@ Proof.
 Qed.
 Lemma ids_edge : forall t, ids t = tid t :: edge_ids t.
 Proof. intros [n ch]. reflexivity. Qed.
+Lemma rev_postorder : forall t, rev (postorder t) = ids (rev_children t).
+Proof.
+  apply tree_ind'. intros n ch HF. cbn [postorder rev_children ids].
+  rewrite rev_app_distr. cbn [rev app]. f_equal.
+  induction HF as [|c l Hc HF IH]; [reflexivity|].
+  cbn [flat_map map rev]. rewrite rev_app_distr, flat_map_app, IH, Hc. cbn [flat_map]. rewrite app_nil_r. reflexivity.
+Qed.
+
+Lemma ids_rc_perm : forall t, Permutation (ids (rev_children t)) (ids t).
+Proof.
+  intros t. rewrite <- rev_postorder. eapply Permutation_trans; [apply Permutation_sym, Permutation_rev|apply postorder_perm].
+Qed.
+Lemma rev_postorder_kids : forall t, rev (flat_map postorder (tch t)) = edge_ids (rev_children t).
+Proof.
+  intros [n ch]. pose proof (rev_postorder (Node n ch)) as R. cbn [postorder rev_children ids] in R.
+  rewrite rev_app_distr in R. cbn [rev app] in R. injection R as R. unfold edge_ids. cbn [tch rev_children]. exact R.
+Qed.
+Lemma edge_ids_rc_perm : forall t, Permutation (edge_ids (rev_children t)) (edge_ids t).
+Proof.
+  intros t. pose proof (ids_rc_perm t) as P. rewrite (ids_edge_rc t), ids_edge in P.
+  eapply Permutation_cons_inv. exact P.
+Qed.
 
 (* "exactly one event for object n, and it has duration s" *)
 Definition exactly_once (l : list (nat * Z)) (n : nat) (s : Z) : Prop :=
@@ -451,9 +505,9 @@ Proof.
   cbn [app centre_run cstep_loc]. rewrite loc_eqb_refl. rewrite centre_run_app.
   assert (K : forall i, centre_run (AtNode n) (bwd_kids tau n i ch) = Some (AtNode n)).
   { induction HF as [|c l Hc HF IH]; intros i; [reflexivity|].
-    cbn [bwd_kids app].
+    cbn [bwd_kids]. rewrite centre_run_app, IH. unfold bwd_blk. cbn [app].
     repeat (cbn [centre_run cstep_loc]; rewrite ?loc_eqb_refl).
-    rewrite centre_run_app, (Hc (Some n)). cbn [after_up]. apply IH. }
+    rewrite (Hc (Some n)). reflexivity. }
   rewrite K. apply centre_up_bwd.
 Qed.
 
@@ -473,8 +527,24 @@ Proof.
   cbn [rev flat_map]. rewrite flat_map_app, rev_app_distr. cbn [flat_map]. rewrite app_nil_r, IH. reflexivity.
 Qed.
 
-Lemma tid_rev_children : forall t, tid (rev_children t) = tid t.
-Proof. intros [n ch]. reflexivity. Qed.
+Lemma flat_map_ext_in' : forall (A B : Type) (f g : A -> list B) l,
+  (forall x, In x l -> f x = g x) -> flat_map f l = flat_map g l.
+Proof.
+  intros A B f g l H. induction l as [|x l IH]; [reflexivity|].
+  cbn [flat_map]. rewrite H by (left; reflexivity). rewrite IH; [reflexivity|]. intros y Hy. apply H. right. exact Hy.
+Qed.
+Lemma rev_flat_map : forall (A B : Type) (f : A -> list B) l,
+  rev (flat_map f l) = flat_map (fun x => rev (f x)) (rev l).
+Proof.
+  intros A B f l. induction l as [|x l IH]; [reflexivity|].
+  cbn [flat_map rev]. rewrite rev_app_distr, IH, flat_map_app. cbn [flat_map]. rewrite app_nil_r. reflexivity.
+Qed.
+Lemma map_flat_map : forall (A B C : Type) (g : B -> C) (f : A -> list B) l,
+  map g (flat_map f l) = flat_map (fun x => map g (f x)) l.
+Proof. intros. induction l as [|x l IH]; [reflexivity|]. cbn [flat_map]. rewrite map_app, IH. reflexivity. Qed.
+Lemma flat_map_map : forall (A B C : Type) (g : A -> B) (f : B -> list C) l,
+  flat_map f (map g l) = flat_map (fun x => f (g x)) l.
+Proof. intros. induction l as [|x l IH]; [reflexivity|]. cbn [map flat_map]. rewrite IH. reflexivity. Qed.
 
 Definition pf_kid (tau : Z) (n : nat) (c : tree) : list pevent :=
   [PSplitDown n (tid c); PJoinDown n (tid c)] ++ phys (fwd tau (Some n) c).
@@ -486,55 +556,35 @@ Proof.
   intros tau n l. induction l as [|c l IH]; intros i; [reflexivity|].
   cbn [fwd_kids flat_map]. rewrite !phys_app, IH. reflexivity.
 Qed.
-Lemma phys_bwd_kids : forall tau n l i, phys (bwd_kids tau n i l) = flat_map (pb_kid tau n) l.
+Lemma phys_bwd_kids : forall tau n l i, phys (bwd_kids tau n i l) = flat_map (pb_kid tau n) (rev l).
 Proof.
   intros tau n l. induction l as [|c l IH]; intros i; [reflexivity|].
-  cbn [bwd_kids flat_map]. rewrite !phys_app, IH. reflexivity.
+  cbn [bwd_kids rev]. unfold bwd_blk. rewrite !phys_app, IH, flat_map_app. cbn [flat_map]. rewrite app_nil_r. reflexivity.
 Qed.
 
-Lemma map_flat_map : forall (A B C : Type) (g : B -> C) (f : A -> list B) l,
-  map g (flat_map f l) = flat_map (fun x => map g (f x)) l.
-Proof. intros. induction l as [|x l IH]; [reflexivity|]. cbn [flat_map]. rewrite map_app, IH. reflexivity. Qed.
-Lemma flat_map_map : forall (A B C : Type) (g : A -> B) (f : B -> list C) l,
-  flat_map f (map g l) = flat_map (fun x => f (g x)) l.
-Proof. intros. induction l as [|x l IH]; [reflexivity|]. cbn [map flat_map]. rewrite IH. reflexivity. Qed.
-
-Theorem ps_backward_mirror_all : forall tau t,
-  phys (bwd tau None t) = map mirror (rev (phys (fwd tau None (rev_children t)))).
-Proof.
-  intros tau. apply tree_ind'. intros n ch HF.
-  cbn [rev_children]. rewrite bwd_eq, fwd_eq. cbn [up_fwd up_bwd]. rewrite !app_nil_r.
-  rewrite !phys_app, phys_fwd_kids, phys_bwd_kids.
-  rewrite rev_app_distr. cbn [phys flat_map phys1 app rev map]. f_equal.
-  rewrite rev_flat_map_rev, flat_map_map, map_flat_map.
-  induction HF as [|c l Hc HF IH]; [reflexivity|].
-  cbn [flat_map]. rewrite IH. f_equal.
-  unfold pb_kid, pf_kid. rewrite tid_rev_children.
-  rewrite fwd_par, bwd_par, !phys_app, tid_rev_children.
-  cbn [up_fwd up_bwd PushToParent phys flat_map phys1 app].
-  cbn [rev]. rewrite rev_app_distr. cbn [rev app]. cbn [map mirror]. rewrite !map_app. cbn [map mirror].
-  rewrite <- Hc. rewrite <- !app_assoc. reflexivity. Qed.
-
-Lemma linear_rev_children : forall t, is_linear t = true -> rev_children t = t.
-Proof.
-  apply (tree_ind' (fun t => is_linear t = true -> rev_children t = t)).
-  intros n ch HF H. cbn [is_linear] in H. apply andb_prop in H. destruct H as [L A].
-  apply Nat.leb_le in L. cbn [rev_children]. f_equal.
-  destruct ch as [|c [|d l]]; [reflexivity| |cbn in L; lia].
-  inversion HF as [|c' l' Hc _]; subst. cbn [forallb] in A. apply andb_prop in A. destruct A as [A _].
-  cbn [map rev app]. rewrite (Hc A). reflexivity.
-Qed.
-
-Theorem ps_symmetric_linear_all : forall tau t, is_linear t = true ->
+(* since fix 036c1e3 the backward sweep is the exact time reverse of the forward sweep, on EVERY tree *)
+Theorem ps_symmetric_all : forall tau t,
   phys (bwd tau None t) = map mirror (rev (phys (fwd tau None t))).
 Proof.
-  intros tau t H. rewrite ps_backward_mirror_all, (linear_rev_children t H). reflexivity.
+  intros tau. apply tree_ind'. intros n ch HF.
+  rewrite bwd_eq, fwd_eq. cbn [up_fwd up_bwd]. rewrite !app_nil_r.
+  rewrite !phys_app, phys_fwd_kids, phys_bwd_kids.
+  rewrite rev_app_distr. cbn [phys flat_map phys1 app rev map]. f_equal.
+  rewrite rev_flat_map, map_flat_map.
+  apply flat_map_ext_in'. intros c Hc'. apply in_rev in Hc'.
+  rewrite Forall_forall in HF. pose proof (HF c Hc') as Hc.
+  unfold pb_kid, pf_kid.
+  rewrite fwd_par, bwd_par, !phys_app.
+  cbn [up_fwd up_bwd PushToParent phys flat_map phys1 app].
+  cbn [rev]. rewrite rev_app_distr. cbn [rev app]. cbn [map mirror]. rewrite !map_app. cbn [map mirror].
+  rewrite <- Hc. rewrite <- !app_assoc. reflexivity.
 Qed.
 
-(* a branching tree on which the step is not time-symmetric *)
-Lemma ps_not_symmetric_example :
+(* documentation of the defect repaired by 036c1e3: with the children visited in increasing index in BOTH sweeps
+   (bwd_inc) the step was not time-symmetric on a branching tree *)
+Lemma ps_old_order_not_symmetric_example :
   let t := Node 0 [Node 1 []; Node 2 []] in
-  phys (bwd 1 None t) <> map mirror (rev (phys (fwd 1 None t))).
+  phys (bwd_inc 1 None t) <> map mirror (rev (phys (fwd 1 None t))).
 Proof. cbv. discriminate. Qed.
 
 (* ------------------------------------------------------------------ linear tree = chain *)
@@ -564,7 +614,7 @@ Proof.
     assert (U : flat_map (to_chain N) (up_bwd k par) = []) by (destruct par; reflexivity).
     rewrite U. cbn [app flat_map to_chain seq rev cl Nat.ltb Nat.leb].
     replace (N - 1 - k)%nat with 0%nat by lia. reflexivity.
-  - cbn [lin]. rewrite bwd_eq. cbn [bwd_kids]. rewrite !chain_app.
+  - cbn [lin]. rewrite bwd_eq. cbn [bwd_kids]. unfold bwd_blk. rewrite !chain_app.
     assert (U : flat_map (to_chain N) (up_bwd k par) = []) by (destruct par; reflexivity).
     rewrite U, (IH (S k) (Some k)) by lia.
     rewrite (seq_S (S m) 0). rewrite rev_app_distr. cbn [plus rev app flat_map to_chain cl tid lin].
@@ -700,8 +750,8 @@ Theorem ps_backward_coverage_all : forall t h fuel,
   exists evs,
     ps_backward fuel h t = Some (mkS [] evs false)
     /\ evs = bwd h None t
-    /\ ev1_of evs = tag h (ids t)
-    /\ ev0_of evs = tag (- h) (edge_ids t)
+    /\ ev1_of evs = tag h (rev (postorder t))
+    /\ ev0_of evs = tag (- h) (rev (flat_map postorder (tch t)))
     /\ covered (ev1_of evs) (ids t) h
     /\ covered (ev0_of evs) (edge_ids t) (- h)
     /\ centre_run (AtNode (tid t)) evs = Some (AtNode (tid t)).
@@ -709,9 +759,9 @@ Proof.
   intros t h fuel ND HF. exists (bwd h None t).
   pose proof (iters_le_bound t).
   split; [apply ps_backward_run; lia|]. split; [reflexivity|].
-  rewrite bwd_ev1, bwd_ev0. split; [reflexivity|]. split; [reflexivity|].
-  split; [apply covered_tag; [exact ND|apply Permutation_refl]|].
-  split; [apply covered_tag; [apply NoDup_edge_ids; exact ND|apply Permutation_refl]|].
+  rewrite bwd_ev1, bwd_ev0. split; [rewrite rev_postorder; reflexivity|]. split; [rewrite rev_postorder_kids; reflexivity|].
+  split; [apply covered_tag; [exact ND|apply ids_rc_perm]|].
+  split; [apply covered_tag; [apply NoDup_edge_ids; exact ND|apply edge_ids_rc_perm]|].
   apply (bwd_centre h t None).
 Qed.
 
@@ -728,16 +778,24 @@ Proof.
   { eapply Permutation_NoDup; [apply Permutation_sym, postorder_perm|exact ND]. }
   assert (NDK : NoDup (flat_map postorder (tch t))).
   { eapply Permutation_NoDup; [apply Permutation_sym, postorder_kids_perm|exact NDE]. }
+  assert (NDR : NoDup (ids (rev_children t))).
+  { eapply Permutation_NoDup; [apply Permutation_sym, ids_rc_perm|exact ND]. }
+  assert (NDRE : NoDup (edge_ids (rev_children t))).
+  { eapply Permutation_NoDup; [apply Permutation_sym, edge_ids_rc_perm|exact NDE]. }
   repeat split; intros x Hx; rewrite ?ev1_app, ?ev0_app, time_at_app,
     ?fwd_ev1, ?bwd_ev1, ?fwd_ev0, ?bwd_ev0.
-  - rewrite !time_at_tag; try assumption; [lia|].
-    eapply Permutation_in; [apply Permutation_sym, postorder_perm|exact Hx].
-  - rewrite !time_at_tag; try assumption; [lia|].
-    eapply Permutation_in; [apply Permutation_sym, postorder_kids_perm|exact Hx].
-  - rewrite !time_at_tag_notin; [lia|exact Hx|].
-    intros F. apply Hx. eapply Permutation_in; [apply postorder_perm|exact F].
-  - rewrite !time_at_tag_notin; [lia|exact Hx|].
-    intros F. apply Hx. eapply Permutation_in; [apply postorder_kids_perm|exact F].
+  - rewrite !time_at_tag; try assumption; [lia| |].
+    + eapply Permutation_in; [apply Permutation_sym, ids_rc_perm|exact Hx].
+    + eapply Permutation_in; [apply Permutation_sym, postorder_perm|exact Hx].
+  - rewrite !time_at_tag; try assumption; [lia| |].
+    + eapply Permutation_in; [apply Permutation_sym, edge_ids_rc_perm|exact Hx].
+    + eapply Permutation_in; [apply Permutation_sym, postorder_kids_perm|exact Hx].
+  - rewrite !time_at_tag_notin; [lia| |].
+    + intros F. apply Hx. eapply Permutation_in; [apply ids_rc_perm|exact F].
+    + intros F. apply Hx. eapply Permutation_in; [apply postorder_perm|exact F].
+  - rewrite !time_at_tag_notin; [lia| |].
+    + intros F. apply Hx. eapply Permutation_in; [apply edge_ids_rc_perm|exact F].
+    + intros F. apply Hx. eapply Permutation_in; [apply postorder_kids_perm|exact F].
 Qed.
 
 (* ------------------------------------------------------------------ two-site scheme *)
@@ -752,7 +810,7 @@ Fixpoint fwd2_kids (tau : Z) (isroot : bool) (n : nat) (kn : list nat) (len i : 
      | [] => []
      | _ :: _ => PushToChild n i (tid c) ++ upd_1bond (tid c) n i ++ fwd2 tau false c
      end)
-    ++ [Evolve2 (tid c) tau; Split2 (tid c) n true] ++ upd_2site (tid c) (map tid (tch c)) n kn
+    ++ [Evolve2 (tid c) n tau; Split2 (tid c) n true] ++ upd_2site (tid c) (map tid (tch c)) n kn
     ++ tail1 tau isroot n kn len i
     ++ fwd2_kids tau isroot n kn len (S i) l'
   end.
@@ -762,7 +820,7 @@ Fixpoint bwd2_kids (tau : Z) (isroot : bool) (n : nat) (kn : list nat) (len i : 
   | c :: l' =>
     bwd2_kids tau isroot n kn len (S i) l' ++
     tail1 tau isroot n kn len i
-    ++ [Evolve2 (tid c) tau; Split2 (tid c) n (is_nil (tch c))] ++ upd_2site (tid c) (map tid (tch c)) n kn
+    ++ [Evolve2 (tid c) n tau; Split2 (tid c) n (is_nil (tch c))] ++ upd_2site (tid c) (map tid (tch c)) n kn
     ++ (match tch c with
         | [] => []
         | _ :: _ => bwd2 tau false c ++ PushToParent (tid c) n ++ upd_1bond (tid c) n i
@@ -1408,21 +1466,20 @@ Proof.
     rewrite <- !app_assoc. rewrite R4. exact R'.
 Qed.
 
-Lemma bwd_loop_fresh : forall n todo, Forall (Hoare (bwd h)) todo ->
-  forall done s, subt (Node n (done ++ todo)) T -> Inv n (done ++ todo) s ->
-  exists s', replay T s (bwd_kids h n (length done) todo) = Some s'
-             /\ Inv n (done ++ todo) s'
-             /\ Fr (ids (Node n (done ++ todo))) (ids (Node n (done ++ todo))) s s'.
+Lemma bwd_loop_fresh : forall n pre, Forall (Hoare (bwd h)) pre ->
+  forall post s, subt (Node n (pre ++ post)) T -> Inv n (pre ++ post) s ->
+  exists s', replay T s (bwd_kids h n 0 pre) = Some s'
+             /\ Inv n (pre ++ post) s'
+             /\ Fr (ids (Node n (pre ++ post))) (ids (Node n (pre ++ post))) s s'.
 Proof.
-  intros n todo HF. induction HF as [|c todo Hc HF IH]; intros done s Ht I.
+  intros n pre. induction pre as [|c pre IH] using rev_ind; intros HF post s Ht I.
   - exists s. split; [reflexivity|]. split; [exact I|apply Fr_refl].
-  - destruct (bwd_block n done c todo s Ht I Hc) as [s4 [R4 [I4 F4]]].
-    assert (E : (done ++ [c]) ++ todo = done ++ c :: todo) by (rewrite <- app_assoc; reflexivity).
-    specialize (IH (done ++ [c])). rewrite E in IH. rewrite app_length in IH. cbn [length] in IH.
-    replace (length done + 1)%nat with (S (length done)) in IH by lia.
-    destruct (IH s4 Ht I4) as [s' [R' [I' F']]].
+  - apply Forall_app in HF. destruct HF as [HF Hc]. inversion Hc as [|? ? Hc' _]; subst.
+    rewrite <- app_assoc in *. cbn [app] in *.
+    destruct (bwd_block n pre c post s Ht I Hc') as [s4 [R4 [I4 F4]]].
+    destruct (IH HF (c :: post) s4 Ht I4) as [s' [R' [I' F']]].
     exists s'. split; [|split; [exact I'|eapply Fr_trans; eassumption]].
-    cbn [bwd_kids]. rewrite app_assoc. rewrite replay_app.
+    rewrite bwd_kids_snoc. cbn [plus]. unfold bwd_blk. rewrite replay_app.
     rewrite R4. exact R'.
 Qed.
 
@@ -1512,12 +1569,13 @@ Proof.
   set (s1 := set_loc (AtNode n) (touch T n s)).
   assert (F1 : Fr [n] [n] s s1).
   { eapply Fr_mono; [apply incl_refl| |apply Fr_touch]. intros x []. }
-  assert (I1 : Inv n ([] ++ ch) s1).
+  assert (I1 : Inv n ch s1).
   { split; [reflexivity|]. split.
     - unfold s1. rewrite ep_ok_touch_keep; [exact E|]. rewrite Cn. left. reflexivity.
     - intros d Hd. eapply (desc_keep par n ch s s1 [n] Ht Pk F1); [|exact Hd|apply A, Hd].
       intros x [X|[]]; subst x; left; reflexivity. }
-  destruct (bwd_loop_fresh n ch HF [] s1 Ht I1) as [s2 [R2 [[L2 [E2 A2]] F2]]]. cbn [app length] in *.
+  rewrite <- (app_nil_r ch) in Ht, I1.
+  destruct (bwd_loop_fresh n ch HF [] s1 Ht I1) as [s2 [R2 [[L2 [E2 A2]] F2]]]. rewrite app_nil_r in *.
   rewrite bwd_eq. cbn [app replay]. rewrite (st_Evolve1 s n h L E K0). fold s1.
   rewrite replay_app, R2.
   assert (F12 : Fr (ids (Node n ch)) (ids (Node n ch)) s s2).
@@ -1606,75 +1664,4 @@ Proof.
   intros n T Hn HT. rewrite forallb_forall in H. specialize (H n Hn). rewrite forallb_forall in H. apply H, HT.
 Qed.
 
-(* ------------------------------------------------------------------ the one-site step is time-symmetric exactly on chains *)
-Definition pe1_of (l : list pevent) : list nat :=
-  flat_map (fun e => match e with PE1 n _ => [n] | _ => [] end) l.
-Lemma pe1_app : forall a b, pe1_of (a ++ b) = pe1_of a ++ pe1_of b.
-Proof. intros. unfold pe1_of. apply flat_map_app. Qed.
-Lemma pe1_phys : forall l, pe1_of (phys l) = map fst (ev1_of l).
-Proof.
-  induction l as [|e l IH]; [reflexivity|].
-  change (phys (e :: l)) with (phys1 e ++ phys l). rewrite pe1_app, IH.
-  destruct e; reflexivity.
-Qed.
-Lemma pe1_mirror_rev : forall l, pe1_of (map mirror (rev l)) = rev (pe1_of l).
-Proof.
-  induction l as [|e l IH]; [reflexivity|].
-  cbn [rev]. rewrite map_app, pe1_app, IH. cbn [map].
-  change (e :: l) with ([e] ++ l). rewrite pe1_app, rev_app_distr.
-  destruct e; reflexivity.
-Qed.
 
-Lemma rev_postorder : forall t, rev (postorder t) = ids (rev_children t).
-Proof.
-  apply tree_ind'. intros n ch HF. cbn [postorder rev_children ids].
-  rewrite rev_app_distr. cbn [rev app]. f_equal.
-  induction HF as [|c l Hc HF IH]; [reflexivity|].
-  cbn [flat_map map rev]. rewrite rev_app_distr, flat_map_app, IH, Hc. cbn [flat_map]. rewrite app_nil_r. reflexivity.
-Qed.
-
-Lemma ids_rc_in : forall t x, In x (ids (rev_children t)) -> In x (ids t).
-Proof.
-  intros t x H. rewrite <- rev_postorder in H. apply in_rev in H.
-  eapply Permutation_in; [apply postorder_perm|exact H].
-Qed.
-Lemma ids_rc_list_in : forall L x, In x (flat_map ids (rev (map rev_children L))) -> In x (flat_map ids L).
-Proof.
-  intros L x H. apply in_flat_map in H. destruct H as [t' [Ht Hx]]. apply in_rev in Ht.
-  apply in_map_iff in Ht. destruct Ht as [t0 [E Ht0]]. subst t'.
-  apply in_flat_map. exists t0. split; [exact Ht0|apply ids_rc_in, Hx].
-Qed.
-
-Lemma ids_rev_children_linear : forall t, NoDup (ids t) -> ids t = ids (rev_children t) -> is_linear t = true.
-Proof.
-  apply (tree_ind' (fun t => NoDup (ids t) -> ids t = ids (rev_children t) -> is_linear t = true)).
-  intros n ch HF ND E. cbn [ids rev_children] in *. inversion ND as [|? ? Hn ND']; subst.
-  injection E as E. cbn [is_linear].
-  destruct ch as [|c [|d l]].
-  - reflexivity.
-  - cbn [length Nat.leb forallb andb]. inversion HF as [|? ? Hc _]; subst. rewrite andb_true_r.
-    cbn [map rev app flat_map] in E, ND'. rewrite !app_nil_r in E. rewrite !app_nil_r in ND'. apply Hc; assumption.
-  - exfalso. cbn [map rev] in E. rewrite flat_map_app in E.
-    change (map rev_children (d :: l)) with (map rev_children (d :: l)) in E.
-    set (P := flat_map ids (rev (map rev_children l) ++ [rev_children d])) in E.
-    assert (HP : forall x, In x P -> In x (flat_map ids (d :: l))).
-    { intros x Hx. apply (ids_rc_list_in (d :: l) x). exact Hx. }
-    cbn [flat_map] in E, ND'. destruct c as [m chc]. cbn [ids app] in E, ND'.
-    destruct P as [|x P'] eqn:EP.
-    + assert (F : In (tid (rev_children d)) P).
-      { unfold P. rewrite flat_map_app. apply in_or_app. right. cbn [flat_map]. rewrite app_nil_r. apply tid_in_ids. }
-      rewrite EP in F. destruct F.
-    + cbn [app] in E. injection E as E1 _. subst x.
-      inversion ND' as [|? ? Hm _]; subst. apply Hm. apply in_or_app. right.
-      apply (HP m). left. reflexivity.
-Qed.
-
-Theorem ps_symmetric_iff_linear : forall h t, NoDup (ids t) ->
-  (phys (bwd h None t) = map mirror (rev (phys (fwd h None t))) <-> is_linear t = true).
-Proof.
-  intros h t ND. split.
-  - intros E. apply ids_rev_children_linear; [exact ND|].
-    apply (f_equal pe1_of) in E. rewrite pe1_mirror_rev, !pe1_phys, bwd_ev1, fwd_ev1, !tag_fst in E.
-    rewrite E. apply rev_postorder.
-  - apply ps_symmetric_linear_all.
-Qed.
